@@ -414,6 +414,7 @@ def transformWrenchFrame(wrench, old_wrench_frame, new_wrench_frame):
     Returns:
         new Wrench in the frame of new_wrench_frame
     """
+    wrench = wrench.copy()
     wrench.changeFrame(new_wrench_frame, old_wrench_frame)
     return wrench
     ref = globalToLocal(old_wrench_frame, new_wrench_frame)
